@@ -395,6 +395,7 @@ func (a *FuncAn) callResult(v ssa.Value, call *ssa.Call, idx int, single bool) L
 	var lo, hi int64
 	hasLo, hasHi, condNN := true, true, true
 	var pl *ParamLin
+	var okLo *int64
 	for i, s := range sums {
 		if idx >= len(s.Res) {
 			return a.opaque(v)
@@ -402,8 +403,14 @@ func (a *FuncAn) callResult(v ssa.Value, call *ssa.Call, idx int, single bool) L
 		r := s.Res[idx]
 		if i == 0 {
 			pl = r.ValParam
-		} else if !pl.equal(r.ValParam) {
-			pl = nil
+			okLo = r.OKLo
+		} else {
+			if !pl.equal(r.ValParam) {
+				pl = nil
+			}
+			if okLo != nil && (r.OKLo == nil || *r.OKLo < *okLo) {
+				okLo = r.OKLo
+			}
 		}
 		if !r.HasLo {
 			hasLo = false
@@ -440,6 +447,10 @@ func (a *FuncAn) callResult(v ssa.Value, call *ssa.Call, idx int, single bool) L
 		}
 		if uns {
 			at.NonNeg = true
+		}
+		// a tighter lower bound on the success path of the callee (released where the call's error is known nil)
+		if okLo != nil && (!hasLo || *okLo > lo) {
+			a.conds = append(a.conds, condLemma{okCall: call, post: []Lin{l.plus(-*okLo)}, why: "value on the success path of the callee"})
 		}
 		if condNN && !(hasLo && lo >= 0) {
 			var pre []Lin
